@@ -32,7 +32,7 @@ func loadKnown(path string) ([]*KnownFinding, error) {
 	var out []*KnownFinding
 	for i, l := range strings.Split(string(data), "\n") {
 		l = strings.TrimSpace(l)
-		if l == "" || strings.HasPrefix(l, "#") {
+		if l == "" || strings.HasPrefix(l, "#") || strings.HasPrefix(l, "fixed:") {
 			continue
 		}
 		k := &KnownFinding{}
